@@ -20,7 +20,7 @@ from sx.dual import replay_concrete
 PROPERTY = "C14"
 EXC = (ValueError, ZeroDivisionError, AssertionError, NotImplementedError)
 SVGNS = "http://www.w3.org/2000/svg"
-NOISE = ["comment", "pi", "title", "desc", "metadata", "foreign_element", "foreign_attribute", "anon_symbol", "wrapper_g", "whitespace", "xml_decl", "foreign_attribute_local_ns"]
+NOISE = ["comment", "pi", "title", "desc", "metadata", "foreign_element", "foreign_attribute", "anon_symbol", "wrapper_g", "whitespace", "xml_decl", "foreign_attribute_local_ns", "nested_descriptive"]
 BASE = [
     "C05:g_opacity_two", "C05:g_g_opacity", "C05:g_fill_inherit", "C05:use_group_opacity", "C06:lin_obb_translate", "C06:href_attrs_and_stops",
     "C06:lin_shared_two_shapes", "C03:group_clip", "C03:clip_the_clip", "C04:inherited_from_group", "C02:use_in_group", "C02:nested_in_group",
@@ -89,6 +89,18 @@ def add_noise(text, kind, pos_index):
     elif kind in ("title", "desc", "metadata"):
         node = etree.Element("{%s}%s" % (SVGNS, kind))
         node.text = "n"
+    elif kind == "nested_descriptive":
+        # descriptive elements nested in one another, followed (in document order) by further
+        # descriptive elements: removal while iterating must not end early
+        node = etree.Element("{%s}metadata" % SVGNS)
+        d = etree.SubElement(node, "{%s}desc" % SVGNS)
+        d.text = "n"
+        etree.SubElement(d, "{%s}title" % SVGNS).text = "t"
+        late = etree.Element("{%s}title" % SVGNS)
+        late.text = "late"
+        groups = [g for g in root.iter("{%s}g" % SVGNS) if not any(a.tag == "{%s}defs" % SVGNS for a in g.iterancestors())]
+        (groups[-1] if groups else root).append(late)
+        root.append(etree.Element("{%s}desc" % SVGNS))
     elif kind == "foreign_element":
         node = etree.Element("{http://example.org/noise}thing", nsmap={"nz": "http://example.org/noise"})
     elif kind == "anon_symbol":
